@@ -160,7 +160,7 @@ func runC06(c *core.Ctx) {
 			// node = result of the fresh-node producer
 			var node ssa.Value
 			core.Instrs(f, func(ins ssa.Instruction) {
-				if call, isC := ins.(*ssa.Call); isC && gen != nil && core.Callee(&call.Call) == gen {
+				if call, isC := ins.(*ssa.Call); isC && gen != nil && c06produces(p, core.Callee(&call.Call), gen, 0) {
 					node = call
 				}
 			})
@@ -501,4 +501,31 @@ func runC06(c *core.Ctx) {
 		}
 		c.Check(val && prev && next && head, "R5", c06Q+".recycleNode", p.Pos(rec.Pos()), "Val/Prev cleared, Next relinked to the free list, node becomes the free-list head", fmt.Sprintf("recycling leaves stale state (Val cleared %v, Prev cleared %v, Next → free list %v, head updated %v)", val, prev, next, head))
 	}
+}
+
+// c06produces: g is the fresh-node producer gen, or a wrapper every return of which yields the result
+// of a call to such a producer (e.g. a helper that also fills in the value).
+func c06produces(p *core.Prog, g, gen *ssa.Function, depth int) bool {
+	if g == nil || depth > 3 {
+		return false
+	}
+	if g == gen {
+		return true
+	}
+	if !p.InRepo(g) || len(g.Blocks) == 0 || g.Signature.Results().Len() != 1 {
+		return false
+	}
+	n, ok := 0, true
+	core.Instrs(g, func(ins ssa.Instruction) {
+		r, isR := ins.(*ssa.Return)
+		if !isR || r.Block() == g.Recover {
+			return
+		}
+		n++
+		call, isC := core.Resolve(core.RetVals(r)[0]).(*ssa.Call)
+		if !isC || !c06produces(p, core.Callee(&call.Call), gen, depth+1) {
+			ok = false
+		}
+	})
+	return ok && n > 0
 }
